@@ -57,7 +57,13 @@ func c19Tree(n *yaml.Node, lines []string) (map[string]any, bool) {
 			}
 			f = append(f, []any{n.Content[i].Value, t})
 		}
-		return map[string]any{"k": "m", "id": c19NodeID(n), "r": parser.VerifIsRuleNode(n, lines), "f": f}, true
+		id := c19NodeID(n)
+		if len(n.Content) > 0 {
+			// an anchored block mapping ("- &a" on its own line) starts on the anchor's line; the parser reports a rule's
+			// first line from its first key, so the id carries that line
+			id = n.Content[0].Line*1000 + n.Column
+		}
+		return map[string]any{"k": "m", "id": id, "r": parser.VerifIsRuleNode(n, lines), "f": f}, true
 	default:
 		return nil, false
 	}
@@ -245,6 +251,7 @@ func runC19(r *hx.Run, replay string) {
 		// strict-valid files (groups without rules, empty rules lists, group options)
 		var sb bytes.Buffer
 		sb.WriteString("groups:\n")
+		var anchors []string
 		for g, n := 0, 1+rr.Intn(3); g < n; g++ {
 			fmt.Fprintf(&sb, "- name: g%d\n", g)
 			if rr.Intn(3) == 0 {
@@ -264,6 +271,22 @@ func runC19(r *hx.Run, replay string) {
 				for _, l := range c19RuleList(r) {
 					sb.WriteString("  " + l + "\n")
 				}
+				// YAML anchors and aliases: a rule entry that is itself an alias, aliased field values, flow mappings
+				if len(anchors) > 0 && rr.Intn(2) == 0 {
+					sb.WriteString("  - *" + hx.Pick(rr, anchors) + "\n")
+				}
+				switch rr.Intn(6) {
+				case 0:
+					a := fmt.Sprintf("shared%d", g)
+					fmt.Fprintf(&sb, "  - &%s {record: \"shared:g%d\", expr: \"sum(up) by(job)\"}\n", a, g)
+					anchors = append(anchors, a)
+				case 1:
+					a := fmt.Sprintf("blk%d", g)
+					fmt.Fprintf(&sb, "  - &%s\n    alert: Shared%d\n    expr: up == 0\n", a, g)
+					anchors = append(anchors, a)
+				case 2:
+					fmt.Fprintf(&sb, "  - record: val:g%d\n    expr: &e%d sum(foo)\n  - record: val2:g%d\n    expr: *e%d\n", g, g, g, g)
+				}
 			}
 		}
 		content := sb.String()
@@ -272,6 +295,9 @@ func runC19(r *hx.Run, replay string) {
 
 		// wrappers around a bare rule list
 		rules := c19RuleList(r)
+		if rr.Intn(5) == 0 {
+			rules = append(rules, "- &w {record: \"w:x\", expr: up}", "- *w")
+		}
 		bare := strings.Join(rules, "\n") + "\n"
 		depth := rr.Intn(5)
 		var w []string
